@@ -345,6 +345,22 @@ Proof.
   repeat split; auto. exists s, m. repeat split; auto.
 Qed.
 
+(* token instructions touch nothing but `data` *)
+Lemma tok_transfer_fields cx W src dst auth amt pdas W' : tok_transfer cx W src dst auth amt pdas = Ok W' ->
+  forall k, lamports (get W' k) = lamports (get W k) /\ owner (get W' k) = owner (get W k) /\ alen (get W' k) = alen (get W k).
+Proof.
+  intros H k. apply tok_transfer_spec in H. destruct H as (_ & _ & _ & _ & s & d & _ & _ & _ & _ & _ & _ & Hsame & Hdiff).
+  destruct (key_eq_dec src dst) as [E|E]; [rewrite (Hsame E); auto|].
+  destruct (Hdiff E) as (_ & Hg). rewrite Hg.
+  destruct (key_eqb_spec src k) as [->|]; [cbn; auto|]. destruct (key_eqb_spec dst k) as [->|]; cbn; auto.
+Qed.
+Lemma tok_burn_fields cx W acc mint auth amt pdas W' : tok_burn cx W acc mint auth amt pdas = Ok W' ->
+  forall k, lamports (get W' k) = lamports (get W k) /\ owner (get W' k) = owner (get W k) /\ alen (get W' k) = alen (get W k).
+Proof.
+  intros H k. apply tok_burn_spec in H. destruct H as (_ & _ & _ & _ & s & m & _ & _ & _ & _ & _ & _ & _ & Hg).
+  rewrite Hg. destruct (key_eqb_spec acc k) as [->|]; [cbn; auto|]. destruct (key_eqb_spec mint k) as [->|]; cbn; auto.
+Qed.
+
 (* ------------------------------------------------------------------------------------------------ bitmaps *)
 (* bit `b` of byte `pos` of the remaining data; bit `i` of the bitmap that starts at byte `start` *)
 Definition byte_bit (tail : list N) (pos b : N) : bool := N.testbit (nth (N.to_nat pos) tail 0) b.
